@@ -169,7 +169,29 @@ TInsert ==
   /\ st' = Obs
   /\ UNCHANGED <<kf, lim, cases, same>>
 
-TraceNext == TCase \/ TNode \/ TCreate \/ TCreateRace \/ TDeleteCol \/ TInsert
+\* An insert request (fresh ids only) while one shard of the collection cannot be opened.  What the other
+\* shards hold still counts: beyond the point quota the request is refused or fails, and nothing changes.
+\* Within the quota it may fail without effect, or place points (never more than it was given, never above a
+\* shard's maximum, never into the shard that could not be opened).
+TSickInsert ==
+  /\ IsEvent("SickInsert")
+  /\ Functional(Obs)
+  /\ Has(st, E.u, E.c) /\ Has(Obs, E.u, E.c)
+  /\ LET old == Rec(st, E.u, E.c)
+         new == Rec(Obs, E.u, E.c)
+     IN /\ Obs \ {new} = st \ {old}
+        /\ IF SeqSum(old.k) + E.n > E.maxPts
+           THEN E.res \in {"quota", "error"} /\ new = old
+           ELSE \/ E.res \in {"quota", "error"} /\ new = old
+                \/ /\ E.res = "ok" /\ Len(new.k) >= Len(old.k)
+                   /\ \A s \in 1..Len(old.k) : new.k[s] >= old.k[s]
+                   /\ E.sick <= Len(old.k) => new.k[E.sick] = old.k[E.sick]
+                   /\ \A s \in 1..Len(new.k) : new.k[s] <= lim \/ (s <= Len(old.k) /\ new.k[s] = old.k[s])
+                   /\ SeqSum(new.k) <= SeqSum(old.k) + E.n
+  /\ st' = Obs
+  /\ UNCHANGED <<kf, lim, cases, same, early>>
+
+TraceNext == TCase \/ TNode \/ TCreate \/ TCreateRace \/ TDeleteCol \/ TInsert \/ TSickInsert
 TraceSpec == TraceInit /\ [][TraceNext]_vars
 
 \* no shard of the model state is above the per-shard maximum
